@@ -957,6 +957,14 @@ def call_builtin(it, b, args, kwargs, node):
     if bt in ('deque', 'list', 'idmap'):
         return seq_call(it, obj, meth, args, kwargs)
     if bt == 'dict':
+        if meth == 'setdefault':
+            k = key_val(it, args[0])
+            if c.branch(z3.Select(c.hget(obj, '$has'), k), 'setdefault-has-key'):
+                return SRef(z3.Select(c.hget(obj, '$map'), k), elem_type(obj.pytype))
+            dflt = args[1] if len(args) > 1 else None
+            c.hset(obj, '$has', z3.Store(c.hget(obj, '$has'), k, True))
+            c.hset(obj, '$map', z3.Store(c.hget(obj, '$map'), k, c.to_ref(dflt)))
+            return dflt
         if meth == 'keys':
             return SRef(obj.e, 'dict_keys')
         if meth == 'get':
